@@ -82,8 +82,9 @@ def run(ctx):
             forms.append(("direct", path_sig(p)[1]))
     want = [("and_then", "return <impl usize>::checked_sub(ok(%s),%s)" % (QM, HDR % "self.session_id")),
             ("map", "return <impl usize>::saturating_sub(ok(%s),%s)" % (QM, HDR % "self.session_id"))]
+    direct = {("direct", "return Option::None"), ("direct", "return <impl usize>::checked_sub(ok(%s),%s)" % (QM, HDR % "self.session_id"))}
     ctx.check("C03-R3", "max_datagram_size == quinn's max - size of the header that is written (varint of the quarter stream id)",
-              len(forms) == 1 and forms[0] in want,
+              (len(forms) == 1 and forms[0] in want) or set(forms) == direct,
               "Connection::max_datagram_size is not `quinn_max.checked_sub(size(varint(quarter id of self.session_id)))`; normal form: %s" % forms, where(f),
               key="max_datagram_size normal form")
     f = A.fn("wtransport::driver::Driver::send_datagram")
